@@ -207,7 +207,8 @@ def observe(cmd, args):
         # outside the well-formedness domain the round trip does NOT hold; the observed results are pinned (str and bytes)
         raw, want = json.loads(args[0]), json.loads(args[1])
         s = serialise(raw)
-        for data in (s, s.encode("utf8")):
+        surrogate = any(0xD800 <= ord(c) < 0xE000 for c in s)          # such a str has no UTF-8 form: str input only
+        for data in ((s,) if surrogate else (s, s.encode("utf8"))):
             got = parse_email(data)
             if [got[0], got[1]] != want: return "serialised %r (%s) parses to %r, pinned %r" % (s, type(data).__name__, got, want)
             if got == (raw, {}): return "this dict round-trips after all: %r" % (raw,)
